@@ -19,6 +19,9 @@ def run(ctx):
     rp = ctx.rule('C14.P1', 'the address version used when verifying follows the selected chain (read at call time)', engine='OWN', floor=1)
     common.rule_call_time_params(rp, repo, files={'bitcoin/wallet.py', 'bitcoin/signmessage.py'})
     c04.common_hash_rule(ctx, repo, 'C14.H1')
+    r_ = ctx.rule('C14.I2', 'the compact signature is indexed only behind its length test', engine='GUARD', floor=1)
+    fs_ = [f for q, f in sorted(repo.functions.items()) if q.startswith(('bitcoin.core.key.CPubKey.recover_compact', 'bitcoin.core.key.CECKey.recover', 'bitcoin.signmessage.'))]
+    common.const_index_instances(r_, repo, fs_, what='a signature of another length raises IndexError instead of being refused')
     # signing a message must leave the key as it was: the header byte and the recid search are about the key's own
     # encoding, and the address the verifier derives depends on it
     from . import c13
